@@ -1,7 +1,7 @@
 #!/bin/sh
 # Maintenance helper (never run by a registered check): run every check against every kept
 # seeded change (scratch copies, /repo untouched) and write seeded/MATRIX.txt.
-cd /verif
+cd "$(dirname "$(readlink -f "$0")")"
 ./setup.sh >/dev/null 2>&1
 out=seeded/MATRIX.txt
 tmp=$(mktemp -d /var/tmp/verif-matrix.XXXXXX)
